@@ -57,7 +57,7 @@ class C15(vlib.Check):
 
     def gen_cases(self):
         rng = self.rng
-        n = 6 if self.tier == "quick" else 40
+        n = 8 if self.tier == "quick" else 56
         refs = [r for r in MG.all_refs() if MG.in_domain(MG.load_ref(r), {"exclude_floating": True})]
         for k in range(n):
             nfiles = rng.randint(5, 8)
@@ -66,7 +66,14 @@ class C15(vlib.Check):
             order = list(range(nfiles))
             rng.shuffle(order)
             o = {"bits": rng.choice([1024, 4096]), "level": rng.choice([2, 5]), "first": 2, "counts": rng.random() < 0.3}
-            mode = [("serial", 1), ("threads", 2), ("threads", 4), ("processes", 2), ("processes", 4)][k % 5]
+            mode = [("serial", 1), ("threads", 2), ("serial", 1), ("processes", 2), ("serial", 1), ("threads", 4), ("processes", 4)][k % 7]
+            if mode[0] == "serial":
+                # in serial mode completion order = input order: put the failing input at a chosen position
+                # (first / last / both ends / middle) - a collector may treat the last completed result specially
+                where = ["last", "first", "both", "middle"][(k // 2) % 4]
+                bad = {"last": [order[-1]], "first": [order[0]], "both": [order[0], order[-1]], "middle": [order[len(order) // 2]]}[where]
+                bad = sorted(bad)
+                self.count("serial-bad:" + where)
             self.count("mode:%s" % mode[0])
             yield {"t": "batch", "files": files, "bad": bad, "order": order, "opts": o, "mode": mode[0], "workers": mode[1]}
         for k in range(2 if self.tier == "quick" else 10):
